@@ -26,6 +26,8 @@ pub struct Stringifier<'s, W: FmtWrite> {
     source_path: &'s str,
     scope_names: Vec<CompactString>,
     mangling: bool,
+    /// the text written next is directly followed by output that starts with `{`
+    pub(crate) followed_by_brace: bool,
 }
 
 impl<'s, W: FmtWrite> Stringifier<'s, W> {
@@ -41,6 +43,7 @@ impl<'s, W: FmtWrite> Stringifier<'s, W> {
             source_path,
             scope_names: vec![],
             mangling: false,
+            followed_by_brace: false,
         }
     }
 
